@@ -20,29 +20,31 @@ def check(run):
     quick = run.tier == "quick"
     rng = random.Random(run.seed)
     # 1) exhaustive exploration of the abstract state space (history hidden by a VIEW), isolation as action properties
-    res = vp.tlc("MC_Context", "MC_Context_c16.cfg", run.workdir, workers=8, timeout=7200)
+    res = vp.tlc("MC_Context", "MC_Context_c16_quick.cfg" if quick else "MC_Context_c16.cfg", run.workdir, workers=8, timeout=7200)
     vp.tlc_ok(res, "MC_Context c16")
     run.add_mc("MC_Context/c16 (state space, VIEW without history)", res)
     # 2) every behaviour up to MaxHist operations
-    gen = vp.tlc("MC_Context", "MC_Context_c16gen.cfg", run.workdir, workers=8, timeout=7200)
+    gen = vp.tlc("MC_Context", "MC_Context_c16gen_quick.cfg" if quick else "MC_Context_c16gen.cfg", run.workdir, workers=8, timeout=7200)
     vp.tlc_ok(gen, "MC_Context c16gen")
     run.add_mc("MC_Context/c16gen (all behaviours of bounded length)", gen)
+    vp.log("c16: state space + behaviours generated")
     short = maximal([json.loads(c)["abs"]["hist"] for c in set(gen["tagged"].get("CASE", []))])
     # 3) long random behaviours from TLC's simulation mode
     sim = vp.tlc("MC_Context", "MC_Context_c16sim.cfg", run.workdir, workers=1, timeout=600,
-                 simulate="num=%d" % (60 if quick else 1200), extra=["-depth", "14", "-seed", str(run.seed)])
+                 simulate="num=%d" % (400 if quick else 4000), extra=["-depth", "14", "-seed", str(run.seed)])
     if sim["violated"]:
         raise vp.ToolError("simulation reported %s" % sim["violated"])
     # in simulation mode the invariant is evaluated on every candidate successor: keep full-depth behaviours only, seeded sample
     long_ = sorted((json.loads(c)["abs"]["hist"] for c in set(sim["tagged"].get("CASE", []))), key=lambda h: json.dumps(h, sort_keys=True))
     long_ = [h for h in long_ if len(h) >= 14]
-    nlong = 200 if quick else 4000
+    nlong = 400 if quick else 4000
     if len(long_) > nlong:
         long_ = rng.sample(long_, nlong)
-    cap = 2500 if quick else 60000
+    cap = 60000 if quick else 200000
     if len(short) > cap:
         short = rng.sample(short, cap)
     behaviours = short + long_
+    vp.log("c16: simulation done, %d + %d behaviours" % (len(short), len(long_)))
     if len(behaviours) < 100:
         raise vp.ToolError("too few behaviours")
     run.samples = [long_[0] if long_ else short[0]]
@@ -50,12 +52,12 @@ def check(run):
     runtimefam.replay_rows(run, rows, [{} for _ in rows], "Trace_Context", "Trace_Context.cfg", "_c16", key_of=ctxfam.key_of,
                            per_case_timeout=120)
     run.exhaustive = len(short) < cap
-    run.notes["behaviours_exhaustive_len4"] = len(short)
+    run.notes["behaviours_exhaustive_%d_ops" % (2 if quick else 3)] = len(short)
     run.notes["behaviours_simulated"] = len(long_)
-    run.assumptions = ["up to 3 contexts (main, sub, sub-sub or sibling), 4 views (scoped to depth 2), 2 accessors (string and rendered-view flavours), 3 locales",
+    run.assumptions = ["up to 3 contexts (main, sub, sub-sub or sibling), 4 views (3 in the quick tier's state-space run; scoped to depth 2), 2 accessors among: string / rendered view / Display flavours of two keys, t_format! and t_format_string! formatter accessors; 3 locales",
                        "effects are flushed after every operation, so there is one linearisation order",
                        "under `ssr` render effects do not re-run: a sub-context whose initial-locale signal is wired (the property's exception) is not exercised"]
-    return run.finish("all behaviours of at most 4 operations after creation (seeded sample above the cap) + seeded simulation behaviours of depth 14, "
+    return run.finish("all behaviours of 2 (quick) / 3 (thorough) operations after creation (seeded sample above the cap) + seeded simulation behaviours of depth 14, "
                       "replayed on real contexts with the locale of every view and the text of every accessor observed after each step",
                       {"distinct_nontrivial": len(behaviours)})
 
